@@ -99,7 +99,7 @@ struct Damage
   long a = 0, b = 0, c = 0;
 };
 const char* DMG[] = {"cut", "torn-tail", "lost-write", "dup-write", "token-replace", "token-delete", "line-dup", "line-swap", "crlf", "cr-only",
-                     "bom", "byte-flip", "wrong-class", "none"};
+                     "bom", "byte-flip", "wrong-class", "header-token-replace", "none"};
 
 struct Token { size_t pos, len; };
 std::vector<Token> tokenize(const std::string& s)
@@ -185,6 +185,18 @@ std::string applyDamage(const std::string& image, const std::vector<std::pair<si
       auto e = events[(size_t)d.a % events.size()];
       std::string o = s;
       if (e.first + e.second <= o.size()) o.insert(e.first, s.substr(e.first, e.second));
+      return o;
+    }
+    case 13:
+    {
+      // the structure of a file (counts, role names, flags) sits in its first lines: corruption focused there
+      auto toks = tokenize(s);
+      size_t nh = 0;
+      while (nh < toks.size() && toks[nh].pos < 400) nh++;
+      if (nh == 0) return s;
+      Token t = toks[(size_t)d.a % nh];
+      std::string o = s;
+      o.replace(t.pos, t.len, replacementToken(d.b, s, toks));
       return o;
     }
     case 4:
@@ -312,6 +324,14 @@ std::string firstWord(const std::string& s)
   }
   return o.substr(0, 40);
 }
+// file@line of an AException: the line number moves with every edit of the file, the signature keeps the file only
+std::string noLine(const std::string& s)
+{
+  size_t at = s.rfind('@');
+  if (at == std::string::npos) return s;
+  for (size_t k = at + 1; k < s.size(); k++) if (!isdigit((unsigned char)s[k])) return s;
+  return s.substr(0, at);
+}
 
 // serialise through the stream seam into the simulated disk
 bool writeObject(const ASerializable* obj, size_t bufsz, std::string& bytes, std::vector<std::pair<size_t, size_t>>& events)
@@ -368,7 +388,7 @@ LoadOutcome loadImage(const ClassAdapter& ad, const std::string& body, int mode,
   catch (const std::out_of_range& e) { lo.cls = "exception"; lo.what = "std::out_of_range"; }
   catch (const std::invalid_argument& e) { lo.cls = "exception"; lo.what = "std::invalid_argument"; }
   catch (const AException& e) { lo.cls = "exception"; lo.what = "AException"; }
-  catch (const std::exception& e) { lo.cls = "exception"; lo.what = std::string("std::exception:") + firstWord(e.what()); }
+  catch (const std::exception& e) { lo.cls = "exception"; lo.what = std::string("std::exception:") + noLine(firstWord(e.what())); }
   catch (...) { lo.cls = "exception"; lo.what = "unknown"; }
   if (memBudgetExceeded() && lo.cls != "exception") lo.cls = "budget-mem";
   memBudgetStop();
@@ -395,6 +415,12 @@ void judgeSurvivor(const ClassAdapter& ad, LoadOutcome& lo, Ctx& c, const std::s
   try
   {
     std::string bad = ad.consistent(o);
+    if (bad.rfind("param: ", 0) == 0)
+    {
+      // a value the API constructors accept as well: not a consistency rule of API-built objects (reach probe only)
+      c.count("probe.survivor-with-unchecked-parameter-range");
+      bad.clear();
+    }
     if (!bad.empty())
     {
       c.violation(P + "inconsistent-object|" + ad.name + "|" + firstWord(bad), detailCtx + " :: " + bad);
@@ -415,7 +441,9 @@ void judgeSurvivor(const ClassAdapter& ad, LoadOutcome& lo, Ctx& c, const std::s
     std::istringstream is(bytes2);
     if (!b->deserialize(is, false))
     {
-      c.violation(P + "survivor-not-reloadable|" + ad.name, detailCtx);
+      // the property asks for "can be used and saved again"; whether that file reads back is the round-trip
+      // property's matter (C08): reach probe only
+      c.count("probe.survivor-saved-but-save-not-reloadable(C08-matter)");
       return;
     }
     Desc d2;
@@ -540,7 +568,8 @@ std::vector<Damage> damageList(const std::string& image, size_t tagLen, const st
   {
     Damage d;
     double u = r.unit();
-    if (u < 0.45) { d.kind = 4; d.a = r.below(100000); d.b = r.below(100000); }
+    if (u < 0.25) { d.kind = 4; d.a = r.below(100000); d.b = r.below(100000); }
+    else if (u < 0.45) { d.kind = 13; d.a = r.below(100000); d.b = r.below(100000); }
     else if (u < 0.55) { d.kind = 5; d.a = r.below(100000); }
     else if (u < 0.62) { d.kind = 1; d.a = r.below((long)image.size() + 1); }
     else if (u < 0.70) { d.kind = 2; d.a = r.below(100000); }
@@ -644,6 +673,7 @@ void execSweep(const Plan& p, Ctx& c, long startIndex)
       c.count(std::string("fault.") + DMG[d.kind]);
       std::string path = scratchDir() + "/fmtimg.dat";
       writeFileRaw(path, img);
+      if (getenv("SIMKIT_DUMP_IMAGE")) writeFileRaw(getenv("SIMKIT_DUMP_IMAGE"), img);
       LoadOutcome lo;
       memBudgetStart(64u << 20, 256u << 20);
       try
@@ -653,7 +683,7 @@ void execSweep(const Plan& p, Ctx& c, long startIndex)
       }
       catch (const std::bad_alloc&) { lo.cls = memBudgetExceeded() ? "budget-mem" : "exception"; lo.what = "std::bad_alloc"; }
       catch (const std::length_error&) { lo.cls = memBudgetExceeded() ? "budget-mem" : "exception"; lo.what = "std::length_error"; }
-      catch (const std::exception& e) { lo.cls = "exception"; lo.what = std::string("std::exception:") + firstWord(e.what()); }
+      catch (const std::exception& e) { lo.cls = "exception"; lo.what = std::string("std::exception:") + noLine(firstWord(e.what())); }
       catch (...) { lo.cls = "exception"; lo.what = "unknown"; }
       if (memBudgetExceeded() && lo.cls != "exception") lo.cls = "budget-mem";
       memBudgetStop();
@@ -661,6 +691,7 @@ void execSweep(const Plan& p, Ctx& c, long startIndex)
       // what a format reader returns is judged as the Db/DbGrid it claims to be; signatures carry the format name
       ClassAdapter named = *judge;
       named.name = fm->name;
+      c.phase("loader-returned");
       judgeSurvivor(named, lo, c, DMG[d.kind], ctx);
       c.line("A " + std::to_string(k) + " " + lo.cls);
     }
@@ -749,6 +780,7 @@ void execSweep(const Plan& p, Ctx& c, long startIndex)
       }
       if (d.kind == 12) c.count("probe.wrong-class-offered");
       if (d.kind == 4 && (d.b % 11) == 2) c.count("probe.count-inflated");
+      c.phase("loader-returned");
       judgeSurvivor(*m.ad, lo, c, DMG[d.kind], ctx);
       c.line("A " + std::to_string(k) + " " + lo.cls);
     }
@@ -825,11 +857,13 @@ struct StoreC09 : Workload
       // which damage was in flight / which produced each violation
       long total = -1, lastIdx = -1;
       std::string lastB;
+      bool loaderReturned = false; // the loader of the damage in flight had returned when the child ended
       std::vector<std::string> bOf; // B line preceding each V line
       for (auto& l : co.lines)
       {
         if (l.rfind("S total ", 0) == 0) total = atol(l.c_str() + 8);
-        if (l.rfind("B ", 0) == 0 && l.find(" load.") != std::string::npos) { lastB = l; lastIdx = atol(l.c_str() + 2); }
+        if (l.rfind("B ", 0) == 0 && l.find(" load.") != std::string::npos) { lastB = l; lastIdx = atol(l.c_str() + 2); loaderReturned = false; }
+        if (l.rfind("P loader-returned", 0) == 0) loaderReturned = true;
         if (l[0] == 'V') bOf.push_back(lastB);
       }
       auto derive = [&](const std::string& bline) {
@@ -850,7 +884,7 @@ struct StoreC09 : Workload
         std::getline(ds, a, ',');
         std::getline(ds, b, ',');
         int kind = 0;
-        for (int k = 0; k < 14; k++) if (nm == DMG[k]) kind = k;
+        for (int k = 0; k < 15; k++) if (nm == DMG[k]) kind = k;
         d.i = {kind, atol(a.c_str()), atol(b.c_str()), 0};
         l.i = {atol(bline.c_str() + mp + 5)};
         q.ops.push_back(d);
@@ -862,9 +896,13 @@ struct StoreC09 : Workload
       Violation v;
       if (deathViolation("C09", co, v))
       {
+        // The watchdog after the loader has returned measures the judge's own queries on the survivor (a getter looping
+        // over 2^31 empty columns ...): "never hangs" is about the loader, so this is a reach probe, not a verdict.
+        bool judgeTimeout = (co.cls == "timeout" && loaderReturned);
+        if (judgeTimeout) rr.counters["probe.watchdog-while-querying-survivor"]++;
         if (co.cls == "exit-80") { v.sig = "C09|budget-steps|" + co.lastKind; v.detail = "loader kept reading after end of file (10000 reads at EOF)"; }
         if (!single && !lastB.empty()) v.replay = derive(lastB);
-        rr.viol.push_back(v);
+        if (!judgeTimeout) rr.viol.push_back(v);
         if (single || lastIdx < 0 || total < 0) break;
         start = lastIdx + 1;
         if (start >= total || ++restarts > 25) break;
